@@ -111,3 +111,189 @@ def rename_locals(root, only=None):
         compile(out, p, "exec")
         open(p, "w", newline="\n").write(out)
     return None
+
+
+# ---------------------------------------------------------------------------------------------------------------------
+# condition-spelling transforms: the same tests written the other way round
+
+_MIRROR = {ast.Lt: ast.Gt, ast.LtE: ast.GtE, ast.Gt: ast.Lt, ast.GtE: ast.LtE, ast.Eq: ast.Eq, ast.NotEq: ast.NotEq}
+_PURE_CALLS = {"len", "int", "abs", "type", "min", "max"}
+
+
+def _pure(e):
+    for n in ast.walk(e):
+        if isinstance(n, (ast.Await, ast.Yield, ast.YieldFrom, ast.NamedExpr, ast.Lambda)):
+            return False
+        if isinstance(n, ast.Call) and not (isinstance(n.func, ast.Name) and n.func.id in _PURE_CALLS):
+            return False
+    return True
+
+
+class _FlipCompare(ast.NodeTransformer):
+    """a < b  ->  b > a   (both operands free of side effects)"""
+
+    def visit_Compare(self, node):
+        self.generic_visit(node)
+        if len(node.ops) == 1 and type(node.ops[0]) in _MIRROR and _pure(node.left) and _pure(node.comparators[0]):
+            return ast.copy_location(ast.Compare(left=node.comparators[0], ops=[_MIRROR[type(node.ops[0])]()], comparators=[node.left]), node)
+        return node
+
+
+class _InvertIf(ast.NodeTransformer):
+    """if c: A else: B  ->  if not c: B else: A   (plain if/else only, elif chains untouched)"""
+
+    def visit_If(self, node):
+        self.generic_visit(node)
+        if node.orelse and not (len(node.orelse) == 1 and isinstance(node.orelse[0], ast.If)) and not getattr(node, "_is_elif", False):
+            node.test = ast.UnaryOp(op=ast.Not(), operand=node.test)
+            node.body, node.orelse = node.orelse, node.body
+        return node
+
+    def generic_visit(self, node):
+        for f in ("orelse",):
+            blk = getattr(node, f, None)
+            if isinstance(node, ast.If) and isinstance(blk, list) and len(blk) == 1 and isinstance(blk[0], ast.If):
+                blk[0]._is_elif = True
+        return super().generic_visit(node)
+
+
+class _MembershipToOr(ast.NodeTransformer):
+    """x in (A, B)  ->  x == A or x == B ;  x not in (A, B)  ->  x != A and x != B"""
+
+    def visit_Compare(self, node):
+        self.generic_visit(node)
+        if len(node.ops) == 1 and isinstance(node.ops[0], (ast.In, ast.NotIn)) and isinstance(node.comparators[0], (ast.Tuple, ast.List)) \
+                and 1 <= len(node.comparators[0].elts) <= 4 and _pure(node.left) and isinstance(node.left, (ast.Name, ast.Attribute)) \
+                and all(_pure(e) for e in node.comparators[0].elts):
+            pos = isinstance(node.ops[0], ast.In)
+            parts = [ast.Compare(left=node.left, ops=[ast.Eq() if pos else ast.NotEq()], comparators=[e]) for e in node.comparators[0].elts]
+            if len(parts) == 1:
+                return ast.copy_location(parts[0], node)
+            return ast.copy_location(ast.BoolOp(op=ast.Or() if pos else ast.And(), values=parts), node)
+        return node
+
+
+def _apply(root, transformer_cls, only=None):
+    base = os.path.join(root, "mpgameserver")
+    for fn in sorted(os.listdir(base)):
+        if not fn.endswith(".py") or (only and fn not in only):
+            continue
+        p = os.path.join(base, fn)
+        src = open(p, "rb").read().decode().replace("\r\n", "\n")
+        tree = transformer_cls().visit(ast.parse(src))
+        ast.fix_missing_locations(tree)
+        out = ast.unparse(tree) + "\n"
+        compile(out, p, "exec")
+        open(p, "w", newline="\n").write(out)
+    return None
+
+
+def flip_comparisons(root):
+    return _apply(root, _FlipCompare)
+
+
+def invert_if_else(root):
+    return _apply(root, _InvertIf)
+
+
+def membership_to_or(root):
+    return _apply(root, _MembershipToOr)
+
+
+_TERMINATORS = (ast.Return, ast.Raise, ast.Continue, ast.Break)
+
+
+class _ElseAfterTerminator(ast.NodeTransformer):
+    """if c: ...; return X        if c: ...; return X
+       rest                  ->   else: rest                (same control flow, different nesting)"""
+
+    def _block(self, stmts):
+        out = []
+        i = 0
+        while i < len(stmts):
+            st = stmts[i]
+            if isinstance(st, ast.If) and not st.orelse and st.body and isinstance(st.body[-1], _TERMINATORS) and i + 1 < len(stmts):
+                st.orelse = self._block(stmts[i + 1:])
+                out.append(st)
+                return out
+            out.append(st)
+            i += 1
+        return out
+
+    def generic_visit(self, node):
+        super().generic_visit(node)
+        for f in ("body", "orelse", "finalbody"):
+            blk = getattr(node, f, None)
+            if isinstance(blk, list) and blk and isinstance(blk[0], ast.stmt):
+                setattr(node, f, self._block(blk))
+        return node
+
+
+class _HoistElse(ast.NodeTransformer):
+    """if c: ...; return X        if c: ...; return X
+       else: rest            ->   rest"""
+
+    def _block(self, stmts):
+        out = []
+        for st in stmts:
+            if isinstance(st, ast.If) and st.orelse and st.body and isinstance(st.body[-1], _TERMINATORS) \
+                    and not (len(st.orelse) == 1 and isinstance(st.orelse[0], ast.If)):
+                rest = st.orelse
+                st.orelse = []
+                out.append(st)
+                out.extend(rest)
+            else:
+                out.append(st)
+        return out
+
+    def generic_visit(self, node):
+        super().generic_visit(node)
+        for f in ("body", "orelse", "finalbody"):
+            blk = getattr(node, f, None)
+            if isinstance(blk, list) and blk and isinstance(blk[0], ast.stmt):
+                setattr(node, f, self._block(blk))
+        return node
+
+
+class _ExpandAugAssign(ast.NodeTransformer):
+    """x += 1  ->  x = x + 1   (numeric constant on the right, name / attribute target: no in-place semantics involved)"""
+
+    def visit_AugAssign(self, node):
+        if isinstance(node.value, ast.Constant) and isinstance(node.value.value, (int, float)) and not isinstance(node.value.value, bool) \
+                and isinstance(node.target, (ast.Name, ast.Attribute)) and _pure(node.target):
+            load = ast.parse(ast.unparse(node.target), mode="eval").body
+            return ast.copy_location(ast.Assign(targets=[node.target], value=ast.BinOp(left=load, op=node.op, right=node.value)), node)
+        return node
+
+
+class _FoldConstants(ast.NodeTransformer):
+    """5 * 60 -> 300 for arithmetic on integer literals"""
+
+    def visit_BinOp(self, node):
+        self.generic_visit(node)
+        if isinstance(node.left, ast.Constant) and isinstance(node.right, ast.Constant) and type(node.left.value) is int and type(node.right.value) is int \
+                and isinstance(node.op, (ast.Add, ast.Sub, ast.Mult, ast.LShift, ast.Pow, ast.FloorDiv, ast.BitOr, ast.BitAnd)):
+            try:
+                v = eval(compile(ast.Expression(body=node), "<fold>", "eval"))
+            except Exception:
+                return node
+            if isinstance(v, int) and abs(v) < 2 ** 70:
+                return ast.copy_location(ast.Constant(value=v), node)
+        return node
+
+
+def else_after_terminator(root):
+    return _apply(root, _ElseAfterTerminator)
+
+
+def hoist_else(root):
+    return _apply(root, _HoistElse)
+
+
+def expand_augassign(root):
+    return _apply(root, _ExpandAugAssign)
+
+
+def fold_constants(root):
+    return _apply(root, _FoldConstants)
+ALL = ("rename_locals", "flip_comparisons", "invert_if_else", "membership_to_or", "else_after_terminator", "hoist_else", "expand_augassign", "fold_constants")
